@@ -477,6 +477,11 @@ def kernel_extra(pid, wanted, inner=None):
         mism, ncases, counts = kernels.compare_kernels(ctx["binary"], wanted)
         for m in mism:
             res["divergences"].append(dict(kind="kernel", component=m["component"], field=m["kernel"], detail=m))
+            if pid == "C16" and m["kernel"] == "hit_ratio":
+                # the real hit_ratio() on given counters: the pair (hits, misses) is the failing input
+                res["failures"].append(dict(signature="hit-ratio-wrong", no_shrink=True, kernel=m["kernel"], input=m["input"], model=m["model"], impl=m["impl"],
+                                            what="hit_ratio() with %s (hits, misses) gives the f64 bits %s, hits / (hits + misses) (0 without hits) has the bits %s"
+                                                 % (m["input"], m["impl"], m["model"])))
             if m["component"] == "preconditions":
                 # the builders and the model disagree on what is accepted: the offending argument tuple is the failing input
                 res["failures"].append(dict(signature="precondition-mismatch", no_shrink=True, kernel=m["kernel"], input=m["input"], model=m["model"], impl=m["impl"],
